@@ -939,6 +939,16 @@ example : (NMem.init.stRun exStOps).ispo = [(1, [(2, [3])]), (4, [(2, [])]), (5,
     (NMem.init.stRun exStOps).drain (none, none, some 3) none = [(1, 2, 3)] ∧
     (NMem.init.stRun exStOps).triplesChoices .s [5, 1, 1] (some 2) none (some 1) = [(1, 2, 3), (1, 2, 3)] := by decide
 
+/-- round h: the new graph of an operator is a nested-dictionary store of its own; two list positions raise -/
+example : ((NOperand.mem exStOps 1).view.nxor (NOperand.simple [.add (1, 2, 3), .add (0, 0, 0)]).view 5).graph 5 = [(0, 0, 0)] ∧
+    ((NOperand.mem exStOps 1).view.nunion (NOperand.simple [.add (1, 2, 3), .add (0, 0, 0)]).view 5).ispo
+      = [(1, [(2, [3])]), (0, [(0, [0])])] ∧
+    (NMem.init.stRun exStOps).triplesChoicesG (.list [1]) (.list []) (.term none) (some 1) = none ∧
+    (NMem.init.stRun exStOps).triplesChoicesG (.term none) (.term (some 2)) (.list [3, 3]) (some 1)
+      = some [(1, 2, 3), (1, 2, 3)] ∧
+    (NMem.init.stRun exStOps).triplesChoicesG (.term none) (.term (some 2)) (.term (some 3)) (some 1) = some [] := by
+  decide
+
 /-- operands on different kinds of store: a graph of a `Memory` after a store-level history and a `SimpleMemory` graph -/
 example : ((Operand.mem exStOps 1).view.xor (Operand.simple [.add (1, 2, 3), .add (9, 9, 9), .remove (none, some 9, none),
       .add (0, 0, 0)]).view 5).graph 5 = [(0, 0, 0)] ∧
